@@ -195,6 +195,7 @@ fn live_check(rep: &mut Report, known: &Known, rng: &mut Rng, n_conns: usize) {
     }
     if sock.is_none() { rep.notes.push("live server did not come up; live part skipped".into()); h.abort(); return; }
     drop(sock);
+    live_systematic(rep, known, port);
     for conn in 0..n_conns {
         // commands with predictable replies: ECHO <payload> (bulk back), PING (+PONG), inline PING
         let n = 1 + rng.usize(6);
@@ -257,6 +258,89 @@ fn live_check(rep: &mut Report, known: &Known, rng: &mut Rng, n_conns: usize) {
     }
     h.abort();
     rt.shutdown_timeout(std::time::Duration::from_secs(1));
+}
+
+/// write the chunks (separate writes, TCP_NODELAY; a longer pause when the boundary lies between
+/// the CR and the LF of a terminator, so that the server really sees two reads), then read
+/// until `want` replies were decoded or nothing arrives for 2 s
+fn talk(s: &mut std::net::TcpStream, chunks: &[Vec<u8>], want: usize) -> (Vec<RespValue>, Vec<u8>) {
+    use std::io::{Read, Write};
+    for (i, c) in chunks.iter().enumerate() {
+        if s.write_all(c).is_err() { break; }
+        s.flush().ok();
+        if i + 1 < chunks.len() {
+            let torn_terminator = c.last() == Some(&b'\r') && chunks[i + 1].first() == Some(&b'\n');
+            std::thread::sleep(std::time::Duration::from_millis(if torn_terminator { 25 } else { 2 }));
+        }
+    }
+    let mut got = vec![];
+    let mut buf = bytes::BytesMut::new();
+    let mut tmp = [0u8; 4096];
+    while got.len() < want {
+        match s.read(&mut tmp) {
+            Ok(0) | Err(_) => break,
+            Ok(k) => {
+                buf.extend_from_slice(&tmp[..k]);
+                while let Ok(Some(v)) = RespValue::decode(&mut buf) { got.push(v); }
+            }
+        }
+    }
+    (got, buf.to_vec())
+}
+
+/// Deterministic live part (both tiers): short pipelines with predictable replies, delivered to
+/// the real `handle_connection` under **every** two-way cut and, for every CRLF, the three-way
+/// cut that isolates its CR and its LF.  Pipeline 0 uses a fresh connection per chunking, the
+/// others one long session each (so state kept across reads and across commands is exercised).
+fn live_systematic(rep: &mut Report, known: &Known, port: u16) {
+    let arr = |parts: &[&[u8]]| Frame::Resp(RespValue::Array(parts.iter().map(|p| RespValue::BulkString(Some(p.to_vec()))).collect()));
+    let bulk = |b: &[u8]| RespValue::BulkString(Some(b.to_vec()));
+    let pong = RespValue::SimpleString("PONG".into());
+    let pipelines: Vec<(Vec<Frame>, Vec<RespValue>)> = vec![
+        (vec![arr(&[b"PING"]), arr(&[b"ECHO", b"hello"])], vec![pong.clone(), bulk(b"hello")]),
+        (vec![Frame::Inline(b"PING".to_vec()), arr(&[b"ECHO", b"a\r\nb"]), arr(&[b"PING", b"x"])], vec![pong.clone(), bulk(b"a\r\nb"), bulk(b"x")]),
+        (vec![arr(&[b"ECHO", b""]), Frame::Inline(b"ECHO \"q w\"".to_vec()), arr(&[b"PING"])], vec![bulk(b""), bulk(b"q w"), pong.clone()]),
+    ];
+    let connect = || -> Option<std::net::TcpStream> {
+        let s = std::net::TcpStream::connect(("127.0.0.1", port)).ok()?;
+        s.set_nodelay(true).ok();
+        s.set_read_timeout(Some(std::time::Duration::from_secs(2))).ok();
+        Some(s)
+    };
+    for (pi, (frames, expect)) in pipelines.iter().enumerate() {
+        let stream: Vec<u8> = frames.iter().flat_map(frame_bytes).collect();
+        let n = stream.len();
+        let lay = layout(frames);
+        let mut cutsets: Vec<Vec<usize>> = (1..n).map(|c| vec![c]).collect();
+        for p in 0..n - 1 {
+            if &stream[p..p + 2] == b"\r\n" {
+                if p >= 1 { cutsets.push(vec![p, p + 1]); }
+                if p + 2 < n { cutsets.push(vec![p + 1, p + 2]); }
+            }
+        }
+        let mut session = if pi == 0 { None } else { connect() };
+        for cuts in cutsets {
+            let chunks = split_at(&stream, &cuts);
+            let mut fresh;
+            let sock = if pi == 0 { fresh = connect(); fresh.as_mut() } else { session.as_mut() };
+            let Some(sock) = sock else { rep.notes.push("live connect failed".into()); return; };
+            let (got, left) = talk(sock, &chunks, expect.len());
+            let cpos = cut_positions(&chunks);
+            let case = Case { frames: Some(frames.clone()), chunks: chunks.clone() };
+            rep.case(&format!("live-systematic {} {}", pi, case_line(&case)), nontrivial(&lay, &cpos));
+            rep.count(if pi == 0 { "live_systematic:fresh-connection" } else { "live_systematic:session" });
+            if chunks.windows(2).any(|w| w[0].last() == Some(&b'\r') && w[1].first() == Some(&b'\n')) { rep.count("live_systematic:cut-between-CR-and-LF"); }
+            if got != *expect || !left.is_empty() {
+                let sig = format!("live-{}", signature(&lay, &cpos));
+                rep.count(&format!("spec_violation:{}", sig));
+                let body = format!("{}\n# live connection (pipeline {}, {}): expected {} replies {:?}\n# got {} replies {:?} leftover={}",
+                    case_line(&case), pi, if pi == 0 { "fresh connection" } else { "same session as the previous chunkings" }, expect.len(),
+                    expect.iter().map(vtext).collect::<Vec<_>>(), got.len(), got.iter().map(vtext).collect::<Vec<_>>(), hexd(&left));
+                rep.spec_violation(known, &sig, "live server: replies differ from one reply per frame in order", &body);
+                if pi != 0 { session = connect(); } // the session is out of step now
+            }
+        }
+    }
 }
 
 // ---------------------------------------------------------------- main
@@ -470,7 +554,7 @@ fn main() {
 
     // 5. live server over loopback TCP (thorough tier; a few connections in quick as a smoke test)
     if args.replay.is_none() {
-        let n = if args.thorough() { 400 } else { 12 };
+        let n = if args.thorough() { 400 } else { 30 };
         live_check(&mut rep, &known, &mut rng, n);
     }
 
